@@ -261,6 +261,21 @@ def run(ctx):
             # per-timeslice vector lists, with and without normalisation: arguments must not be modified
             vls = [np.array([float(rng.randint(1, 3)) for _ in range(N)]) for _ in range(T)]
             vrs = [np.array([float(rng.randint(1, 3)) for _ in range(N)]) for _ in range(T)]
+            # values with one (different) vector pair per timeslice, some of them undefined; with normalize=True the harness normalises each vector itself
+            def optvec(v):
+                return "None" if v is None else "(Some [%s])" % "; ".join(qlit(float(x)) for x in v)
+            for norm in (False, True):
+                wl = [None if rng.random() < 0.12 else np.array([float(rng.randint(-3, 3)) for _ in range(N)]) for _ in range(T)]
+                wr = [None if rng.random() < 0.12 else np.array([float(rng.randint(-3, 3)) for _ in range(N)]) for _ in range(T)]
+                if norm:
+                    wl = [None if v is None else (v if v @ v else v + 1.0) for v in wl]
+                    wr = [None if v is None else (v if v @ v else v + 1.0) for v in wr]
+                    el = [None if v is None else v / math.sqrt(float(v @ v)) for v in wl]
+                    er = [None if v is None else v / math.sqrt(float(v @ v)) for v in wr]
+                else:
+                    el, er = wl, wr
+                record(a, "projected(list,list,normalize=%s)" % norm, "(OpProjectedL [%s] [%s])" % ("; ".join(optvec(v) for v in el), "; ".join(optvec(v) for v in er)),
+                       lambda: a.projected(wl, wr, normalize=norm), [wl, wr])
             for norm in (False, True):
                 b4 = [snapshot(vls), snapshot(vrs)]
                 try:
